@@ -101,6 +101,8 @@ pub struct World {
     pub read_log: Vec<ReadRec>,
     pub log_reads: bool,
     pub write_sizes_max: usize,
+    /// (read index, seed): at that read() of the server another thread serves a whole other connection
+    pub interlope: Option<(u64, u64)>,
     /// cache for count_complete
     gate_cache: (usize, usize),
 }
@@ -117,6 +119,7 @@ impl World {
             pending: vec![],
             visible: vec![],
             write_limit: usize::MAX,
+            interlope: None,
             fault: Fault::default(),
             nread: 0,
             nwrite: 0,
@@ -206,6 +209,19 @@ pub struct MemTransport(pub Rc<RefCell<World>>);
 
 impl Read for MemTransport {
     fn read(&mut self, buf: &mut [u8]) -> io::Result<usize> {
+        let fire = {
+            let mut w = self.0.borrow_mut();
+            match w.interlope {
+                Some((k, seed)) if k == w.nread + 1 => {
+                    w.interlope = None;
+                    Some(seed)
+                }
+                _ => None,
+            }
+        };
+        if let Some(seed) = fire {
+            crate::core::run_interloper(seed);
+        }
         let mut w = self.0.borrow_mut();
         let ev = w.tick();
         if let Some(e) = w.inject(OpKind::Read) {
